@@ -157,6 +157,25 @@ def main():
             fam.append(('bit flip r', pub, e_, r_ ^ (1 << bit), s_, ref.verify(pub[0], pub[1], e_, r_ ^ (1 << bit), s_)))
             fam.append(('bit flip s', pub, e_, r_, s_ ^ (1 << bit), ref.verify(pub[0], pub[1], e_, r_, s_ ^ (1 << bit))))
             fam.append(('bit flip e', pub, e_ ^ (1 << bit), r_, s_, ref.verify(pub[0], pub[1], e_ ^ (1 << bit), r_, s_)))
+    # keys whose x coordinate lies in [n, p-1] (canonical field elements above the group order; 2^-128 of all keys): a valid
+    # (e, r, s) is built without the private key from R = [s]G + [t]P, r = t - s, e = r - x(R)
+    xs = N
+    big_keys = []
+    while len(big_keys) < 2 and xs < P:
+        rhs = (xs ** 3 - 3 * xs + ref.B) % P
+        ys = pow(rhs, (P + 1) // 4, P)
+        if ys * ys % P == rhs:
+            big_keys.append((xs, ys))
+        xs += 1
+    for Pk in big_keys:
+        s_ = rng.randrange(1, N)
+        t_ = rng.randrange(1, N)
+        R_ = ref.add(ref.mul(s_), ref.mul(t_, Pk))
+        r_ = (t_ - s_) % N
+        if R_ is None or r_ == 0:
+            continue
+        e_ = (r_ - R_[0]) % N
+        fam.append(('key x in [n,p)', Pk, e_, r_, s_, True))
     rows = []
     for name, pub, e_, r_, s_, want in fam:
         want = ref.verify(pub[0], pub[1], e_, r_, s_) if want is None else want
@@ -182,6 +201,18 @@ func TestVerifReplay(t *testing.T) {
     elif ok is False:
         import re
         fam_bad = sorted(set(re.findall(r'case \d+ \(([^)]*)\)', out)))
+
+    # ---------------------------------------------------------------- the decoding contract used above, discharged on the real code
+    okd, ddetail, dwit = setbytes_obligation(prog, ck, 'SM2Element', P, 'sm2')
+    if okd is True:
+        ck.record('coordinate_decoding', 'proved', ddetail + ' (real fiat.SM2Element.SetBytes, all 2^256 strings)')
+    elif okd == 'cex' and fam_bad:
+        ck.record('coordinate_decoding', 'violated', ddetail + '; confirmed on the real build by the families %s' % fam_bad)
+        ck.violation('coordinate-decoding', 'public-key coordinates are not decoded as "canonical value below p": ' + ddetail, fam_path)
+    elif okd == 'cex':
+        ck.encoder_mismatch('coordinate_decoding', ddetail)
+    else:
+        ck.record('coordinate_decoding', 'inconclusive', ddetail)
 
     # ---------------------------------------------------------------- verdicts
     for key, fl in sorted(fails.items()):
